@@ -2,7 +2,8 @@ import AlgoVerif.Model.C01
 /-!
 Line-protocol component for C01 and C15 (keys and values are `Int`, `eqVal` is `==`).
 
-Header: `comp=bst|avl|rb cmp=asc|desc [dump=1]`.  With `dump=1` every state-changing call appends
+Header: `comp=bst|avl|rb cmp=asc|desc|diff|diff7|rdiff [dump=1]` (`diff` = `a-b`, `diff7` = `7*(a-b)`,
+`rdiff` = `b-a`: comparators that do not return -1/0/+1).  With `dump=1` every state-changing call appends
 ` | <dump of the table it changed>`.  `dump` prints the current table: pre-order
 `(key val size L R)` for the BST, `(key val size height L R)` for AVL, `(key val size R|B L R)` for
 LLRB, `.` for nil — the format of the hook `symboltable.VerifDump`.
@@ -83,6 +84,8 @@ def parseOp (ws : List String) : Option (Op Int Int) :=
   | ["range", lo, hi] => do some (.range (← parseInt? lo) (← parseInt? hi))
   | ["rangesize", lo, hi] => do some (.rangeSize (← parseInt? lo) (← parseInt? hi))
   | ["all"] => some .all
+  | ["alluntil", lim] => do some (.allUntil (← parseNat? lim))
+  | ["equalother"] => some .equalOther
   | ["traverse", o, lim] => do some (.traverse (← parseOrder o) (← parseNat? lim))
   | ["equal"] => some .equal
   | "anymatch" :: p => do some (.anyMatch (← parsePred p))
@@ -113,6 +116,9 @@ def runCase (hdr : List String) (ops : List String) : List String := Id.run do
   let some kind := kind? | return ops.map fun _ => "bad-case"
   let cmp := match headerGet hdr "cmp" with
     | some "desc" => cmpDesc
+    | some "diff" => cmpDiff
+    | some "diff7" => cmpDiff7
+    | some "rdiff" => cmpRDiff
     | _ => cmpAsc
   let withDump := headerNat hdr "dump" 0 == 1
   let mut s : State Int Int := (.nil, .nil)
